@@ -302,12 +302,13 @@ func TestC15(t *testing.T) {
 	r.Extra("rule", "models: (a) scope-collision generator — 2-4 proto2 files in packages a, a.b, a.b.c, b, b.c, a.c or none, imports incl. public, every element kind (message, enum, enum value, field, oneof, extension, custom option declared at file level and inside messages, service, method) named from the pool {a,b,c,T,U,x}; custom options on every element kind, message-typed options with extensions of extensions; (b) gen.GenModel with Collide. "+
 		"For every reference site class of every file (field/map-value/extension type, extendee, method input/output, option name (first and later name parts) per element kind, extension name inside a message literal) and EVERY spelling (each suffix of the target's full name, with and without leading dot) the file is rendered with that spelling at exactly the sites of that class (gen.Style.Ref), compiled against the linked baseline of the other files, and compared with the reference resolver: "+
 		"same element ⇒ accepted and descriptor equal to the model; another element of an acceptable kind ⇒ if accepted, the compiled type_name/extendee/input_type/output_type at those sites is that element (options: descriptor differs from the model); failure (not found / first component found but remainder not defined / wrong kind) ⇒ rejected. "+
-		"A spelling is DECIDED only if the expectation is the same under every uncalibrated choice (enum/service aggregate-ness; start scope of field/oneof/extension-range options: message or enclosing scope; start scope of message-literal extension names: using file's package or scope enclosing the extendee; key/value first components in map value types); undecided spellings are only observed. "+
+		"A spelling is DECIDED only if the expectation is the same under every uncalibrated choice (start scope of field/oneof/extension-range options: message or enclosing scope; start scope of message-literal extension names: using file's package or scope enclosing the extendee; key/value first components in map value types); undecided spellings are only observed. "+
 		"one evaluation = one (model, file, site class, spelling); non-trivial = relative spelling (no leading dot) that is decided; distinct = (model sources, site, spelling)")
 	r.Extra("assumptions", []string{
 		"reference resolver ≡ protoc on the decided domain: calibrated at every run against the protoc-verified R3 verdicts (resolution cases) and the protoc-produced descriptors of R1/R2 (every type/extendee/method reference must resolve to protoc's recorded name); a disagreement makes the run inconclusive",
 		"the canonical (leading-dot) rendering of a model compiles to the model (checked per model; otherwise the model is skipped)",
-		"protoc is not available: rules that only its source code (as remembered) supports are toggles, never deciders",
+		"an enum or a service found for the first component of a compound name ends the search like a message or a package does (protoc descriptor.cc Symbol::IsAggregate; not covered by a recorded protoc verdict)",
+		"protoc is not available: other rules that only its source code (as remembered) supports are toggles, never deciders",
 	})
 
 	// ---------- calibration ----------
